@@ -223,6 +223,185 @@ macro_rules! fast_float { ($s:expr, $T:ty, $nang:expr, $scales:expr) => {{
     }
 }} }
 
+// ---------------------------------------------------------------------------------------------------------------------------------
+// round-c additions (second, adversarial audit): alphabets around the special values of every branch / guard a "fast path" could be
+// keyed on (the code's own negligible-scale threshold from just above, nearly-unit scales, tiny translations, narrow angles,
+// axis-aligned rotations, extreme but representable magnitudes), with oracles that are exact by construction or carry a derived
+// rounding count.
+
+/// the 24 rotation matrices with entries in {-1,0,1} (signed permutation matrices of determinant +1)
+fn rot24() -> Vec<[[i32; 3]; 3]> {
+    let mut o = Vec::new();
+    for (p, par) in signed_permutations(3) { for sg in 0..8u32 {
+        let sgn = [if sg & 1 == 0 { 1 } else { -1 }, if sg & 2 == 0 { 1 } else { -1 }, if sg & 4 == 0 { 1 } else { -1 }];
+        if par as i32 * sgn[0] * sgn[1] * sgn[2] != 1 { continue; }
+        let mut m = [[0i32; 3]; 3]; for i in 0..3 { m[i][p[i]] = sgn[i]; }
+        o.push(m);
+    } }
+    o
+}
+
+/// scale letter: value, short (a power of two times 1, 3 or 5: all products the general inverse forms are exact), tag (0 plain,
+/// 1 just above the code's negligible threshold, 2 nearly unit, 3 huge)
+type SLetter = (f64, bool, u8);
+/// translation: value, moderate (the general inverse may be asserted), tag (0 plain, 1 tiny, 2 huge, 3 zero)
+type TLetter = ([f64; 3], bool, u8);
+
+/// M = T * P * S in one float type, P one of the 24 axis-aligned rotations, every entry of M exactly representable.
+/// Exact inverse: linear part P^T[i][j] / s_i (one non-zero per row), translation -P[j*][i] t[j*] / s_i (one term).
+/// What the code may round: s_i^2 (one lane term, the others are exact zeros), the division, the product with t, hence at most 3
+/// roundings (general inverse on short letters: cofactors and determinant exact, 2 roundings). Oracle without any quotient:
+/// |got_ij * s_i - P_ji| <= 4 EPS |P_ji|  and  |got_i3 * s_i - tau_i| <= 6 EPS |tau_i|, tau_i = -sum_j P_ji t_j (exact, one term),
+/// evaluated exactly (f32: in f64, 48-bit product; f64: one fused multiply-add, a correctly rounded residual). A zero target
+/// demands an exact zero (0 * t = 0), the bottom row must be exactly (0,0,0,1).
+macro_rules! perm_float { ($s:expr, $T:ty, $letters:expr, $trans:expr, $smod:expr, $tiny_e:expr) => {{
+    let s: &Section = $s; let tn = stringify!($T); let is32 = tn == "f32";
+    let eps = <$T>::EPSILON as f64;
+    let letters: &[SLetter] = $letters; let trans: &[TLetter] = $trans; let smod: f64 = $smod;
+    let resid = move |g: f64, sc: f64, target: f64| -> f64 { if is32 { g * sc - target } else { g.mul_add(sc, -target) } };
+    let rots = rot24();
+    use rayon::prelude::*;
+    rots.par_iter().for_each(|p| {
+        let mut cnt = [0u64; 10]; // evals, just-above, nearly-unit, huge-scale, tiny-t, huge-t, rigid, general, axis-aligned(non-identity), identity-rotation
+        let is_id = (0..3).all(|i| p[i][i] == 1);
+        for &(s0, h0, g0) in letters { for &(s1, h1, g1) in letters { for &(s2, h2, g2) in letters {
+            let sc = [s0, s1, s2]; let tags = [g0, g1, g2];
+            let unit = sc == [1.0, 1.0, 1.0];
+            let short = h0 && h1 && h2;
+            let moderate_s = sc.iter().all(|v| v.abs() <= smod && v.abs() >= 1.0 / smod);
+            for &(t, tmod, ttag) in trans {
+                let mut m = [[0.0 as $T; 4]; 4];
+                for i in 0..3 { for j in 0..3 { m[i][j] = (p[i][j] as f64 * sc[j]) as $T; } m[i][3] = t[i] as $T; } m[3][3] = 1.0;
+                let mut chk = |name: &str, kind: usize, g: A<$T, 4>, gi: A<$T, 4>| {
+                    cnt[0] += 1; if kind != 0 { cnt[kind] += 1; }
+                    if tags.contains(&1) { cnt[1] += 1; } if tags.contains(&2) { cnt[2] += 1; } if tags.contains(&3) { cnt[3] += 1; }
+                    if ttag == 1 { cnt[4] += 1; } if ttag == 2 { cnt[5] += 1; }
+                    if is_id { cnt[9] += 1; } else { cnt[8] += 1; }
+                    let detail = || json!({"type": tn, "P": p, "scale": sc.iter().map(|v| format!("{:e}", v)).collect::<Vec<_>>(), "t": t.iter().map(|v| format!("{:e}", v)).collect::<Vec<_>>()});
+                    if (0..4).any(|i| (0..4).any(|j| g[i][j].to_bits() != gi[i][j].to_bits())) { s.violation(&format!("Mat4<{}>::{}", tn, name), "in-place-form-differs", detail()); }
+                    let mut bad: Option<(usize, usize, f64, f64)> = None;
+                    for i in 0..3 {
+                        for j in 0..3 { let target = p[j][i] as f64; let r = resid(g[i][j] as f64, sc[i], target); let b = 4.0 * eps * target.abs(); if !(r.abs() <= b) && bad.is_none() { bad = Some((i, j, r, b)); } }
+                        let mut tau = 0.0f64; for j in 0..3 { if p[j][i] != 0 { tau = -(p[j][i] as f64) * t[j]; } }
+                        let r = resid(g[i][3] as f64, sc[i], tau); let b = 6.0 * eps * tau.abs(); if !(r.abs() <= b) && bad.is_none() { bad = Some((i, 3, r, b)); }
+                    }
+                    for j in 0..4 { let w = if j == 3 { 1.0 } else { 0.0 }; if !(g[3][j] as f64 == w) && bad.is_none() { bad = Some((3, j, g[3][j] as f64 - w, 0.0)); } }
+                    if let Some((i, j, r, b)) = bad { s.violation_w(&format!("Mat4<{}>::{}", tn, name), "axis-aligned-transform-not-inverted-within-derived-rounding-bound",
+                        json!({"input": detail(), "entry": [i, j], "got": format!("{:e}", g[i][j]), "residual got*s_i - target": r, "bound": b}), tags.iter().filter(|&&x| x != 0).count() as u64 + (ttag != 3) as u64 + (!is_id) as u64); }
+                };
+                chk("inverted_affine_transform(col)", 0, cm::Mat4::<$T>::build(&m).inverted_affine_transform().decode(), { let mut x = cm::Mat4::<$T>::build(&m); x.invert_affine_transform(); x.decode() });
+                chk("inverted_affine_transform(row)", 0, rm::Mat4::<$T>::build(&m).inverted_affine_transform().decode(), { let mut x = rm::Mat4::<$T>::build(&m); x.invert_affine_transform(); x.decode() });
+                if unit {
+                    chk("inverted_affine_transform_no_scale(col)", 6, cm::Mat4::<$T>::build(&m).inverted_affine_transform_no_scale().decode(), { let mut x = cm::Mat4::<$T>::build(&m); x.invert_affine_transform_no_scale(); x.decode() });
+                    chk("inverted_affine_transform_no_scale(row)", 6, rm::Mat4::<$T>::build(&m).inverted_affine_transform_no_scale().decode(), { let mut x = rm::Mat4::<$T>::build(&m); x.invert_affine_transform_no_scale(); x.decode() });
+                }
+                if short && moderate_s && tmod {
+                    chk("inverted(col)", 7, cm::Mat4::<$T>::build(&m).inverted().decode(), { let mut x = cm::Mat4::<$T>::build(&m); x.invert(); x.decode() });
+                    chk("inverted(row)", 7, rm::Mat4::<$T>::build(&m).inverted().decode(), { let mut x = rm::Mat4::<$T>::build(&m); x.invert(); x.decode() });
+                }
+            }
+        } } }
+        s.evals(cnt[0], cnt[0]); s.class_n(tn, cnt[0]);
+        for (k, name) in [(1, "scale-just-above-negligible-threshold"), (2, "nearly-unit-scale"), (3, "huge-scale"), (4, "tiny-translation"), (5, "huge-translation"), (6, "rigid"), (7, "general-inverse-exact-case"), (8, "axis-aligned-rotation"), (9, "identity-rotation")] { if cnt[k] > 0 { s.class_n(name, cnt[k]); } }
+    });
+    // narrow angles: L = I + e*skew(v), v in {+-x, +-y, +-z, (1,-1,1)}, e so small that e^2 is below half an ulp of 1: L is orthogonal
+    // within rounding (for a single axis it is the correctly rounded rotation by the angle e). Both fast inverses must return the
+    // transposed linear part exactly (|column|^2 rounds to 1) and -L^T t within the forward bound gamma_4 * sum|L_ji t_j| <= 4 EPS * sum of three
+    // rounded products and their subtractions, compared in exact rationals.
+    let tiny_e: &[f64] = $tiny_e;
+    let g4 = 4.0 * eps; // gamma_4 = 4u/(1-4u) <= 8u = 4 EPS (u = EPS/2), a power of two
+    for &e in tiny_e { for v in [[1.0f64, 0.0, 0.0], [-1.0, 0.0, 0.0], [0.0, 1.0, 0.0], [0.0, -1.0, 0.0], [0.0, 0.0, 1.0], [0.0, 0.0, -1.0], [1.0, -1.0, 1.0]] {
+        let (ex, ey, ez) = (e * v[0], e * v[1], e * v[2]);
+        let l = [[1.0, -ez, ey], [ez, 1.0, -ex], [-ey, ex, 1.0]];
+        for t in [[1.5f64, -2.0, 3.0], [0.0, 0.0, 5.0], [1.0, 1048576.0, -3.0]] {
+            let mut m = [[0.0 as $T; 4]; 4];
+            for i in 0..3 { for j in 0..3 { m[i][j] = l[i][j] as $T; } m[i][3] = t[i] as $T; } m[3][3] = 1.0;
+            let chk = |name: &str, g: A<$T, 4>, gi: A<$T, 4>| {
+                s.eval(true); s.class("narrow-angle"); s.class(tn);
+                let detail = || json!({"type": tn, "L = I + e*skew(v)": {"e": format!("{:e}", e), "v": v}, "t": t});
+                if (0..4).any(|i| (0..4).any(|j| g[i][j].to_bits() != gi[i][j].to_bits())) { s.violation(&format!("Mat4<{}>::{}", tn, name), "in-place-form-differs", detail()); }
+                let mut bad: Option<(usize, usize)> = None;
+                for i in 0..3 { for j in 0..3 { if !(g[i][j] as f64 == l[j][i]) && bad.is_none() { bad = Some((i, j)); } } }
+                for j in 0..4 { let w = if j == 3 { 1.0 } else { 0.0 }; if !(g[3][j] as f64 == w) && bad.is_none() { bad = Some((3, j)); } }
+                for i in 0..3 {
+                    let (mut wf, mut mf) = (0.0f64, 0.0f64); for j in 0..3 { wf -= l[j][i] * t[j]; mf += (l[j][i] * t[j]).abs(); }
+                    let gf = g[i][3] as f64;
+                    if !((gf - wf).abs() <= mf / 1048576.0) { if bad.is_none() { bad = Some((i, 3)); } continue; } // grossly wrong, NaN or infinite: no exact arithmetic needed
+                    let ok = catch(|| {
+                        let q = |x: f64| vx::Q::from_f64(x);
+                        let Some(gq) = q(gf) else { return false };
+                        let (mut want, mut mag) = (vx::Q::ZERO, vx::Q::ZERO);
+                        for j in 0..3 { let term = q(l[j][i]).unwrap().mul(q(t[j]).unwrap()); want = want.sub(term); mag = mag.add(term.abs()); }
+                        gq.sub(want).abs().mul(q(1.0 / g4).unwrap()) <= mag // g4 is a power of two: |got - want| / g4 <= sum|terms| without large cross products
+                    });
+                    match ok { Ok(true) => {}, Ok(false) => { if bad.is_none() { bad = Some((i, 3)); } }, Err(_) => s.unmodelled("overflow in the exact float comparison") }
+                }
+                if let Some((i, j)) = bad { s.violation(&format!("Mat4<{}>::{}", tn, name), "narrow-angle-rotation-not-inverted", json!({"input": detail(), "entry": [i, j], "got": format!("{:e}", g[i][j])})); }
+            };
+            chk("inverted_affine_transform_no_scale(col)", cm::Mat4::<$T>::build(&m).inverted_affine_transform_no_scale().decode(), { let mut x = cm::Mat4::<$T>::build(&m); x.invert_affine_transform_no_scale(); x.decode() });
+            chk("inverted_affine_transform_no_scale(row)", rm::Mat4::<$T>::build(&m).inverted_affine_transform_no_scale().decode(), { let mut x = rm::Mat4::<$T>::build(&m); x.invert_affine_transform_no_scale(); x.decode() });
+            chk("inverted_affine_transform(col)", cm::Mat4::<$T>::build(&m).inverted_affine_transform().decode(), { let mut x = cm::Mat4::<$T>::build(&m); x.invert_affine_transform(); x.decode() });
+            chk("inverted_affine_transform(row)", rm::Mat4::<$T>::build(&m).inverted_affine_transform().decode(), { let mut x = rm::Mat4::<$T>::build(&m); x.invert_affine_transform(); x.decode() });
+        }
+    } }
+}} }
+
+/// inverted()/invert() of one float type on M = D1 * E * D2, D1 = diag(2^a_i) (rows), D2 = diag(2^b_j) (columns), E small integers:
+/// every product the block method forms is homogeneous in the row / column scalings, so all cofactors and the determinant stay exact
+/// and inv(M)_ij = 2^-b_i * (adj(E)_ij / det(E)) * 2^-a_j carries the same two roundings as in `inv_float`.
+macro_rules! inv_float_aniso { ($s:expr, $T:ty, $e:expr, $aref:expr, $dref:expr, $pats:expr, $w:expr) => {{
+    let s: &Section = $s; let e: &A<i64, 4> = $e;
+    let tn = stringify!($T);
+    let two_eps = vx::Q::new(1, 1i128 << (if tn == "f64" { 51 } else { 22 }));
+    let pats: &[([i32; 4], [i32; 4], &str)] = $pats;
+    for &(a, b, cls) in pats {
+        let m: A<$T, 4> = std::array::from_fn(|i| std::array::from_fn(|j| e[i][j] as $T * (2.0 as $T).powi(a[i] + b[j])));
+        let inp = || json!({"E": e, "M": "diag(2^a) * E * diag(2^b)", "a": a, "b": b});
+        for (site, got) in [
+            ("row inverted", s.call("inv", inp, || rm::Mat4::<$T>::build(&m).inverted().decode())),
+            ("col inverted", s.call("inv", inp, || cm::Mat4::<$T>::build(&m).inverted().decode())),
+            ("row invert", s.call("inv", inp, || { let mut x = rm::Mat4::<$T>::build(&m); x.invert(); x.decode() })),
+            ("col invert", s.call("inv", inp, || { let mut x = cm::Mat4::<$T>::build(&m); x.invert(); x.decode() })),
+        ] {
+            s.eval(true); s.class(tn); s.class(cls);
+            let Some(g) = got else { continue };
+            let mut bad: Option<(usize, usize)> = None;
+            for i in 0..4 { for j in 0..4 {
+                let gn = (g[i][j] * (2.0 as $T).powi(b[i] + a[j])) as f64; // exact: power-of-two rescaling back to the magnitude of adj/det
+                let ok = catch(|| match vx::Q::from_f64(gn) { None => false, Some(gq) => { let want = vx::Q::new($aref[i][j], $dref); gq.sub(want).abs() <= two_eps.mul(want.abs()) } });
+                match ok { Ok(true) => {}, Ok(false) => { if bad.is_none() { bad = Some((i, j)); } }, Err(_) => s.unmodelled("overflow in the exact float comparison") }
+            } }
+            if let Some((i, j)) = bad { s.violation_w(&format!("Mat4<{}> {} (row/column power-of-two scaling)", tn, site), "float-inverse-not-within-two-roundings-of-adjugate-over-determinant",
+                json!({"E": e, "M = diag(2^a) * E * diag(2^b)": {"a": a, "b": b}, "entry": [i, j], "got": format!("{:e}", g[i][j]), "want": format!("{}/{} * 2^{}", $aref[i][j], $dref, -(b[i] + a[j]))}), $w + a.iter().chain(b.iter()).map(|v| v.unsigned_abs() as u64).sum::<u64>()); }
+        }
+    }
+}} }
+
+/// determinant() of one float type on diag(2^a) * E * diag(2^b): every Leibniz term carries the same power of two, so the result is
+/// det(E) * 2^(sum a + sum b) exactly (all eight forms of `det_ty`).
+macro_rules! det_scaled { ($s:expr, $N:expr, $R:ident, $C:ident, $T:ty, $e:expr, $want:expr, $a:expr, $b:expr, $w:expr) => {{
+    let s: &Section = $s; let e: &A<i64, $N> = $e; let a: &[i32] = $a; let b: &[i32] = $b;
+    let m: A<$T, $N> = std::array::from_fn(|i| std::array::from_fn(|j| e[i][j] as $T * (2.0 as $T).powi(a[i] + b[j])));
+    let tot: i32 = a[..$N].iter().sum::<i32>() + b[..$N].iter().sum::<i32>();
+    let want = ($want as $T) * (2.0 as $T).powi(tot);
+    let (r, c) = (rm::$R::<$T>::build(&m), cm::$C::<$T>::build(&m));
+    let inp = || json!({"E": e, "a": &a[..$N], "b": &b[..$N]});
+    let sites: [(&str, Option<$T>); 8] = [
+        ("row determinant", s.call("det", inp, || r.determinant())),
+        ("col determinant", s.call("det", inp, || c.determinant())),
+        ("row transposed().determinant", s.call("det", inp, || r.transposed().determinant())),
+        ("col transposed().determinant", s.call("det", inp, || c.transposed().determinant())),
+        ("row transpose() in place, then determinant", s.call("det", inp, || { let mut x = r; x.transpose(); x.determinant() })),
+        ("col transpose() in place, then determinant", s.call("det", inp, || { let mut x = c; x.transpose(); x.determinant() })),
+        ("Cols::from(rows).determinant", s.call("det", inp, || cm::$C::<$T>::from(r).determinant())),
+        ("Rows::from(cols).determinant", s.call("det", inp, || rm::$R::<$T>::from(c).determinant())),
+    ];
+    let mut n = 0u64;
+    for (site, got) in sites { if let Some(g) = got { n += 1; if !(g == want) {
+        s.violation_w(&format!("Mat{}<{}> {} (row/column power-of-two scaling)", $N, stringify!($T), site), "not-the-leibniz-expansion", json!({"M = diag(2^a) * E * diag(2^b)": inp(), "got": format!("{:e}", g), "want": format!("{:e}", want)}), $w); } } }
+    n
+}} }
+
 fn main() {
     let rep = Report::start("C06", "exploration");
     let th = rep.thorough();
@@ -548,6 +727,126 @@ fn main() {
         fast_float!(s, f32, nang, [[1.0, 1.0, 1.0], [p(-10), 1.0, p(10)], [-p(-10), p(-10), p(-10)], [3.0, -0.5, p(10)], [2.0, 0.5, 3.0]]);
         fast_float!(s, f64, nang, [[1.0, 1.0, 1.0], [p(-10), 1.0, p(10)], [-p(-10), p(-10), p(-10)], [3.0, -0.5, p(10)], [2.0, 0.5, 3.0], [p(-20), p(20), 1.0], [p(-25), p(-25), p(-25)]]);
         s.sample(json!({"type": "f32", "angle": -6.1863, "axis": [1, -1, 0], "t": [-1000.0, 7.0, 0.25], "scale": [p(-10), 1.0, p(10)]}));
+    });
+    // ------------------------------------------------------------------------------------------------------------------------------
+    // round-c sections (second audit)
+    rep.section("fast inverses around special values (exact rationals): threshold from just above, nearly-unit scales, tiny and single-lane translations, narrow angles",
+        "M = T*R (rigid) and M = T*R*S; R = Rodrigues matrix of 7 rational unit axes (3 of them coordinate axes; thorough: every 3rd of 103) x (12 rational circle points incl. 0, +-90 and 180 degrees + narrow angles t = +-2^-24 (sin ~ 2^-23) + near-180 t = 2^24); T in {tiny (2^-40,-3*2^-45,2^-50), single lanes (0,0,5) (7,0,0) (0,-3,0), mixed (2^-40,3,-2^20)}; S from: just above the code's negligible threshold scale^2 > 2^-52 (2^-26(1+2^-10): scale^2 = 1.002 eps; 3*2^-27: 2.25 eps), nearly unit (1+-2^-12, 1+-2^-20, 1+-2^-30), alone in one lane or in all (quick 12 triples; thorough 343); the tie scale^2 == eps is left open (the text says 'not negligibly small'); oracle from the parameters: [S^-1 R^T | -S^-1 R^T t] validated by reference products; value and in-place forms of both layouts, and inverted() where the exact general inverse fits the rational type; non-trivial: all (every case has a special value)", true, false, |s| {
+        s.require_classes(&["rigid", "scale-just-above-negligible-threshold", "nearly-unit-scale", "tiny-translation", "single-lane-translation", "narrow-angle", "near-180-degrees", "axis-aligned-rotation", "identity-rotation"]);
+        let axes = unit_axes(); let mut circ: Vec<(X, X, &str)> = circle_points().into_iter().map(|(c, sn)| (c, sn, "")).collect();
+        let p2 = |k: i32| if k >= 0 { qi(1i128 << k) } else { q(1, 1i128 << -k) };
+        for (tn, td, cls) in [(1i128, 1i128 << 24, "narrow-angle"), (-1, 1i128 << 24, "narrow-angle"), (1i128 << 24, 1, "near-180-degrees")] { let t = q(tn, td); let t2 = t * t; circ.push(((qi(1) - t2) / (qi(1) + t2), (t + t) / (qi(1) + t2), cls)); }
+        let trs: Vec<([X; 3], &str)> = vec![([p2(-40), -qi(3) * p2(-45), p2(-50)], "tiny-translation"), ([qi(0), qi(0), qi(5)], "single-lane-translation"), ([qi(7), qi(0), qi(0)], "single-lane-translation"), ([qi(0), qi(-3), qi(0)], "single-lane-translation"), ([p2(-40), qi(3), -p2(20)], "tiny-translation")];
+        let (ja, jb) = (q((1 << 10) + 1, 1i128 << 36), q(3, 1i128 << 27));
+        let nu = |k: i32, sg: i128| q((1i128 << k) + sg, 1i128 << k);
+        let one = qi(1);
+        let scs: Vec<[X; 3]> = if th { let al = [ja, jb, nu(12, 1), nu(30, -1), -nu(20, 1), one, qi(2)]; let mut o = Vec::new(); for a in al { for b in al { for c in al { if [a, b, c] != [one; 3] { o.push([a, b, c]); } } } } o }
+            else { vec![[ja; 3], [jb, one, qi(2)], [one, -ja, one], [qi(2), one, jb], [nu(12, 1); 3], [nu(30, -1); 3], [nu(30, 1), one, one], [one, nu(12, -1), one], [one, one, nu(20, 1)], [-nu(30, 1), nu(12, 1), nu(20, -1)], [nu(20, -1); 3], [nu(12, -1), qi(2), ja]] };
+        let (id4, id3) = (ident::<X, 4>(), ident::<X, 3>());
+        let ax_idx: Vec<usize> = if th { (0..axes.len()).filter(|i| i % 3 == 0 || *i < 6).collect() } else { vec![0, 3, 4, 9, 37, 71, 100] };
+        let work: Vec<(usize, usize)> = ax_idx.iter().flat_map(|&i| (0..circ.len()).map(move |j| (i, j))).collect();
+        use rayon::prelude::*;
+        work.par_iter().for_each(|&(ai, ci)| {
+            let r3 = rodrigues(&axes[ai], circ[ci].0, circ[ci].1);
+            let rot_cls = if r3 == id3 { "identity-rotation" } else if r3.iter().flatten().all(|v| *v == qi(0) || *v == qi(1) || *v == qi(-1)) { "axis-aligned-rotation" } else { "general-rotation" };
+            let ang_cls = circ[ci].2;
+            let reference = |sc: &[X; 3], t: &[X; 3]| -> A<X, 4> {
+                let mut w = id4;
+                for i in 0..3 { let mut ti = qi(0); for j in 0..3 { w[i][j] = r3[j][i] / sc[i]; ti = ti - r3[j][i] * t[j] / sc[i]; } w[i][3] = ti; }
+                w
+            };
+            macro_rules! fastc { ($cls:expr, $tcls:expr, $m:expr, $want:expr, $fast:ident, $fast_inplace:ident, $name:expr, $general:expr) => {{
+                let (m, want): (A<X, 4>, A<X, 4>) = ($m, $want);
+                for lay in ["row", "col"] {
+                    s.eval(true); s.class($cls); s.class($tcls); s.class(rot_cls); if ang_cls != "" { s.class(ang_cls); }
+                    let got = if lay == "row" { s.call($name, || jmat(&m), || { let mm = rm::Mat4::<X>::build(&m); let mut g = mm; g.$fast_inplace(); (mm.$fast().decode(), g.decode()) }) }
+                              else { s.call($name, || jmat(&m), || { let mm = cm::Mat4::<X>::build(&m); let mut g = mm; g.$fast_inplace(); (mm.$fast().decode(), g.decode()) }) };
+                    let site = format!("Mat4<{}>::{}", lay, $name);
+                    if let Some((f, g)) = got {
+                        if f != want { s.violation(&site, "differs-from-reference-inverse(special values)", json!({"M": jmat(&m), "got": jmat(&f), "want": jmat(&want)})); }
+                        if g != f { s.violation(&site, "in-place-form-differs", json!({"M": jmat(&m)})); }
+                        if $general {
+                            let gen = if lay == "row" { catch(|| rm::Mat4::<X>::build(&m).inverted().decode()) } else { catch(|| cm::Mat4::<X>::build(&m).inverted().decode()) };
+                            match gen { Ok(gen) => { s.class("general-inverse-compared"); if gen != f { s.violation(&site, "differs-from-general-inverse", json!({"M": jmat(&m), "got": jmat(&f), "want": jmat(&gen)})); } }
+                                        Err(Caught::Unmodelled(_)) => s.class("general-inverse-overflows-the-rational-type(skipped)"),
+                                        Err(e) => s.violation(&format!("Mat4<{}>::inverted", lay), "panic", json!({"M": jmat(&m), "panic": format!("{:?}", e)})) }
+                        }
+                    }
+                }
+            }} }
+            for (t, tcls) in &trs {
+                let m = affine4(&r3, t);
+                let want = match catch(|| { let w = reference(&[qi(1); 3], t); (w, mmul(&m, &w), mmul(&w, &m)) }) { Ok((w, l, r)) => { if l != id4 || r != id4 { s.rep.machinery_error(format!("reference rigid inverse wrong at axis {} circle {}", ai, ci)); } w }, Err(_) => { s.unmodelled("rational overflow in the reference"); continue } };
+                fastc!("rigid", *tcls, m, want, inverted_affine_transform_no_scale, invert_affine_transform_no_scale, "inverted_affine_transform_no_scale", ang_cls == "");
+                fastc!("rigid", *tcls, m, want, inverted_affine_transform, invert_affine_transform, "inverted_affine_transform", ang_cls == "");
+                for sc in &scs {
+                    // narrow angles carry 48-bit denominators: only scale triples with denominators up to 2^12 fit the rational type
+                    if ang_cls != "" && sc.iter().any(|v| v.rat().d > 1 << 12) { continue; }
+                    let ab = |v: &X| if *v < qi(0) { -*v } else { *v };
+                    let just = sc.iter().any(|v| ab(v) < p2(-20));
+                    let cls = if just { "scale-just-above-negligible-threshold" } else { "nearly-unit-scale" };
+                    let general = !just && ang_cls == "" && sc.iter().all(|v| v.rat().d <= 1 << 12);
+                    let built = catch(|| { let mut l = r3; for i in 0..3 { for j in 0..3 { l[i][j] = r3[i][j] * sc[j]; } } let m = affine4(&l, t); let w = reference(sc, t); let (a, b) = (mmul(&m, &w), mmul(&w, &m)); (m, w, a, b) });
+                    let (m, want) = match built { Ok((m, w, a, b)) => { if a != id4 || b != id4 { s.rep.machinery_error(format!("reference TRS inverse wrong at axis {} circle {}", ai, ci)); } (m, w) }, Err(_) => { s.eval(false); s.unmodelled("rational overflow in the reference"); continue } };
+                    fastc!(cls, *tcls, m, want, inverted_affine_transform, invert_affine_transform, "inverted_affine_transform", general);
+                }
+            }
+            if s.wants_sample() && rot_cls == "general-rotation" { let sc = [ja, one, nu(30, 1)]; let mut l = r3; for i in 0..3 { for j in 0..3 { l[i][j] = r3[i][j] * sc[j]; } } s.sample(json!({"M = T*R*S": jmat(&affine4(&l, &trs[0].0)), "scale": jxs(&sc), "t": jxs(&trs[0].0), "law": "inverted_affine_transform(M) == [S^-1 R^T | -S^-1 R^T t]"})); }
+        });
+    });
+
+    rep.section("fast and general inverses, f32 and f64, on exactly representable axis-aligned transforms and narrow-angle rotations",
+        "M = T*P*S rounded nowhere: P = the 24 rotations with entries in {-1,0,1}, S = all triples of a 10-letter alphabet per type (f32 resp. f64: 1, -2, 3, -5*2^-9 resp. -5*2^-20, 2^-6 resp. 2^-10; nearly unit 1+2^-11, 1-2^-20 resp. 1+2^-25, 1-2^-40; just above the type's negligible threshold scale^2 > EPSILON: 1.5*2^-12, 2^-11 resp. 2^-26(1+2^-10), 1.5*2^-26; huge 2^40 resp. 2^500, whose square is still representable; thorough: 13 letters, adding the negative huge letter, 1+2^-22 resp. 1+2^-50 and 7/8), T in {0, (0,0,5), (1.5,-2,3), tiny, huge (squared length representable), mixed}; inverted_affine_transform always, inverted_affine_transform_no_scale for S = I, inverted()/invert() where all letters are short (exact cofactors) and moderate; in-place twins bit for bit; oracle without a quotient: |got_ij s_i - P_ji| <= 4 EPS |P_ji|, |got_i3 s_i - tau_i| <= 6 EPS |tau_i| (at most 3 roundings), exact zeros and bottom row; narrow angles: L = I + e skew(v), e in {2^-30, 2^-60} (f32: 2^-20, 2^-40), 7 directions, 3 translations: linear part must be exactly L^T, translation within gamma_4 sum|L_ji t_j| in exact rationals; non-trivial: all", true, false, |s| {
+        s.require_classes(&["f32", "f64", "scale-just-above-negligible-threshold", "nearly-unit-scale", "huge-scale", "tiny-translation", "huge-translation", "rigid", "general-inverse-exact-case", "axis-aligned-rotation", "identity-rotation", "narrow-angle"]);
+        let p = |k: i32| 2f64.powi(k);
+        let l64: Vec<SLetter> = vec![(1.0, true, 0), (-2.0, true, 0), (3.0, true, 0), (-5.0 * p(-20), true, 0), (p(-10), true, 0), (1.0 + p(-25), false, 2), (1.0 - p(-40), false, 2), (p(-26) * (1.0 + p(-10)), false, 1), (1.5 * p(-26), false, 1), (p(500), true, 3), (-p(500), true, 3), (1.0 + p(-50), false, 2), (0.875, false, 0)];
+        let l32: Vec<SLetter> = vec![(1.0, true, 0), (-2.0, true, 0), (3.0, true, 0), (-5.0 * p(-9), true, 0), (p(-6), true, 0), (1.0 + p(-11), false, 2), (1.0 - p(-20), false, 2), (1.5 * p(-12), false, 1), (p(-11), false, 1), (p(40), true, 3), (-p(40), true, 3), (1.0 + p(-22), false, 2), (0.875, false, 0)];
+        let t64: Vec<TLetter> = vec![([0.0; 3], true, 3), ([0.0, 0.0, 5.0], true, 0), ([1.5, -2.0, 3.0], true, 0), ([p(-60), -3.0 * p(-70), p(-65)], true, 1), ([p(500), -3.0 * p(400), p(450)], false, 2), ([p(-60), 1.0, -p(40)], false, 1)];
+        let t32: Vec<TLetter> = vec![([0.0; 3], true, 3), ([0.0, 0.0, 5.0], true, 0), ([1.5, -2.0, 3.0], true, 0), ([p(-30), -3.0 * p(-35), p(-33)], true, 1), ([p(40), -3.0 * p(30), p(35)], false, 2), ([p(-30), 1.0, -p(20)], false, 1)];
+        let (n64, n32) = if th { (13, 13) } else { (10, 10) };
+        perm_float!(s, f64, &l64[..n64], &t64, p(30), &[p(-30), p(-60)]);
+        perm_float!(s, f32, &l32[..n32], &t32, p(11), &[p(-20), p(-40)]);
+        s.sample(json!({"type": "f64", "P": [[0, -1, 0], [1, 0, 0], [0, 0, 1]], "scale": ["2^-26(1+2^-10)", "1+2^-25", "2^500"], "t": ["2^-60", "-3*2^-70", "2^-65"], "law": "got_ij * s_i == P_ji within 4 EPS, got_i3 * s_i == -P_j*i t_j* within 6 EPS"}));
+    });
+
+    rep.section("general 4x4 inverse, f32 and f64: extreme and anisotropic power-of-two scalings against the exact adjugate over determinant",
+        "E as in the section 'general 4x4 inverse, f32 and f64, against the exact adjugate over determinant' (signed affine image of L(16, 3 quick / 4 thorough)); M = diag(2^a) E diag(2^b) with (a,b) from: uniform 2^+-250 (f64; determinant ~ 2^+-1000) resp. 2^+-27 (f32; ~ 2^+-108), one tiny row, alternating rows 2^+-100 resp. 2^+-12, opposite columns, mixed; every product of the block method is homogeneous in the scalings and stays in the normal range, so cofactors and determinant are exact and inv(M)_ij 2^(b_i + a_j) = adj(E)_ij / det(E) within two roundings; non-trivial: every non-singular E", true, false, |s| {
+        s.require_classes(&["f32", "f64", "uniform-extreme-down", "uniform-extreme-up", "anisotropic"]);
+        let base = [2i64, 0, 1, 0, 0, 3, 0, 1, 1, 0, 1, 0, 0, 1, 0, 2];
+        let p64: Vec<([i32; 4], [i32; 4], &str)> = vec![([-250; 4], [0; 4], "uniform-extreme-down"), ([250; 4], [0; 4], "uniform-extreme-up"), ([0, 0, 0, -100], [0; 4], "anisotropic"), ([100, -100, 100, -100], [0; 4], "anisotropic"), ([0; 4], [-100, 0, 0, 100], "anisotropic"), ([50, 0, -50, 0], [-70, 70, 0, 30], "anisotropic"), ([-200, 0, 0, 0], [0, 0, 0, -200], "anisotropic")];
+        let p32: Vec<([i32; 4], [i32; 4], &str)> = vec![([-27; 4], [0; 4], "uniform-extreme-down"), ([27; 4], [0; 4], "uniform-extreme-up"), ([0, 0, 0, -20], [0; 4], "anisotropic"), ([12, -12, 12, -12], [0; 4], "anisotropic"), ([0; 4], [-12, 0, 0, 12], "anisotropic"), ([6, 0, -6, 0], [-9, 9, 0, 4], "anisotropic"), ([-20, 0, 0, 0], [0, 0, 0, -20], "anisotropic")];
+        par_lattice(16, if th { 4 } else { 3 }, |p| {
+            let mut e = [[0i64; 4]; 4];
+            for i in 0..4 { for j in 0..4 { let k = i * 4 + j; e[i][j] = (if (i + j) % 2 == 0 { 1 } else { -1 }) * p[k] + base[k] * (if k % 3 == 2 { -1 } else { 1 }); } }
+            let ei: A<i128, 4> = std::array::from_fn(|i| std::array::from_fn(|j| e[i][j] as i128));
+            let (dref, aref) = (det_i(&ei), adj_i(&ei));
+            if dref == 0 { s.eval(false); s.class("singular(skipped)"); return; }
+            let w = p.iter().sum::<i64>() as u64;
+            inv_float_aniso!(s, f64, &e, aref, dref, &p64, w);
+            inv_float_aniso!(s, f32, &e, aref, dref, &p32, w);
+            if s.wants_sample() && w == 3 { s.sample(json!({"E": e, "det": dref.to_string(), "a": p64[5].0, "b": p64[5].1, "law": "inverted(diag(2^a) E diag(2^b))_ij * 2^(b_i + a_j) == adj(E)_ij/det(E) within two roundings"})); }
+        });
+    });
+
+    rep.section("determinant, f32 and f64: row / column power-of-two scalings up to the ends of the exponent range",
+        "E = signed affine image of L(N^2, D) (N=2: D=4, N=3: D=3, N=4: D=2 quick / 3 thorough), M = diag(2^a) E diag(2^b); every Leibniz term carries the factor 2^(sum a + sum b), so determinant() (both layouts, transposed(), transpose() in place, layout change) must be det(E) 2^(sum a + sum b) exactly; patterns: uniform up / down to |det| ~ 2^+-1000 (f64) resp. 2^+-100 (f32), one tiny row, alternating rows, opposite columns; non-trivial: det != 0", true, false, |s| {
+        s.require_classes(&["N=2", "N=3", "N=4"]);
+        let (p2, p3, p4) = (signed_permutations(2), signed_permutations(3), signed_permutations(4));
+        // exponent patterns: (a, b) for f64 and for f32, the first N entries are used; per-entry exponent a_i + b_j, N-fold products stay normal
+        let pat64: [([i32; 4], [i32; 4]); 5] = [([250; 4], [0; 4]), ([-250; 4], [0; 4]), ([0, -300, 0, 0], [0; 4]), ([200, -200, 200, -200], [0; 4]), ([30, 0, -30, 0], [-150, 150, 70, 0])];
+        let pat32: [([i32; 4], [i32; 4]); 5] = [([25; 4], [0; 4]), ([-25; 4], [0; 4]), ([0, -40, 0, 0], [0; 4]), ([20, -20, 20, -20], [0; 4]), ([5, 0, -5, 0], [-15, 15, 7, 0])];
+        macro_rules! scaled_cases { ($N:expr, $R:ident, $C:ident, $p:expr, $perms:expr, $cls:expr) => {{
+            let e = signed_entries::<$N>($p, 1);
+            let want: i128 = det_perm::<$N>(&e, $perms);
+            let w: u64 = e.iter().flatten().map(|v| v.unsigned_abs()).sum();
+            let mut n = 0u64;
+            for k in 0..5 { n += det_scaled!(s, $N, $R, $C, f64, &e, want, &pat64[k].0, &pat64[k].1, w); n += det_scaled!(s, $N, $R, $C, f32, &e, want, &pat32[k].0, &pat32[k].1, w); }
+            s.evals(n, if want != 0 { n } else { 0 }); s.class_n($cls, n);
+        }} }
+        par_lattice(4, 4, |p| scaled_cases!(2, Mat2, Mat2, p, &p2, "N=2"));
+        par_lattice(9, 3, |p| scaled_cases!(3, Mat3, Mat3, p, &p3, "N=3"));
+        par_lattice(16, if th { 3 } else { 2 }, |p| scaled_cases!(4, Mat4, Mat4, p, &p4, "N=4"));
+        s.sample(json!({"E": signed_entries::<3>(&[1, 0, 2, 0, 1, 0, 0, 0, 1], 1), "a": [30, 0, -30], "b": [-150, 150, 70], "law": "determinant(diag(2^a) E diag(2^b)) == det(E) * 2^(sum a + sum b) exactly"}));
     });
     std::process::exit(rep.finish());
 }
